@@ -477,6 +477,10 @@ package hotline
 //@   property C02 C09 C10
 //@   requires obj(targetFile) != obj(resForkFile) && obj(targetFile) != obj(infoFork) && obj(targetFile) != obj(counterWriter)
 //@   ensures err == nil ==> written(targetFile) == old(written(targetFile)) + max(callres("(*hotline.flattenedFileObject).dataSize"), 0)
+// success means every part the stream announced was read: no read of a header or fork that failed
+// -- a clean end of stream included -- is turned into success (the caller publishes the file on nil)
+//@   ensures err == nil ==> callres("(*hotline.flattenedFileObject).ReadFrom", 1) == nil
+//@   ensures err == nil && called("encoding/binary.Read") ==> callres("encoding/binary.Read") == nil
 
 // C09: the partial file keeps what it already holds (append, never truncate); nothing is opened or
 // renamed when the final name exists; the final name appears only after a complete receive.
@@ -1255,6 +1259,18 @@ package hotline
 //@   ensures len(cc.Account.FileRoot) != 0 ==> r == cc.Account.FileRoot
 //@   ensures len(cc.Account.FileRoot) == 0 ==> r == cc.Server.Config.FileRoot
 //@   modifies nothing
+
+// C05: which folders are drop boxes / upload folders (the rules the view-drop-boxes and
+// upload-anywhere privileges govern) is decided by the declared last item of the path: its name,
+// lower-cased, CONTAINS "drop box" / "upload" -- "Admin Drop Box" and "Uploads (staff)" count.
+//@ func (fp *FilePath) IsDropbox() (r bool)
+//@   property C05
+//@   requires fp != nil
+//@   before call strings.Contains assert arg0 == callres("strings.ToLower") && arg1 == "drop box"
+//@ func (fp *FilePath) IsUploadDir() (r bool)
+//@   property C05
+//@   requires fp != nil
+//@   before call strings.Contains assert arg0 == callres("strings.ToLower") && arg1 == "upload"
 
 // C18: a decoded news path has exactly as many components as its count field says -- one per
 // scanned name, empty names included -- so the component a request addresses last is the one the
